@@ -258,6 +258,9 @@ func c20Run(env *c20Env, c c20Case, mk func() vsChooser, maxSteps int) c20Case {
 	if atomic.LoadUint32(&ss.state) != uint32(streamOpened) {
 		nsent = 1
 	}
+	if env.server.IsClosed() || env.client.IsClosed() {
+		c.Feat = append(c.Feat, fmt.Sprintf("SESSION-DOWN(server closed=%v, client closed=%v)", env.server.IsClosed(), env.client.IsClosed()))
+	}
 	c.Final = []int64{int64(atomic.LoadUint32(&s.state)), int64(atomic.LoadUint32(&s.callbackInProcess)),
 		int64(atomic.LoadUint32(&s.callbackCloseState)), inTable, int64(cb.local), int64(cb.remote), nsent}
 	c.Recv = []int{}
@@ -498,9 +501,21 @@ func c20Run(env *c20Env, c c20Case, mk func() vsChooser, maxSteps int) c20Case {
 			break
 		}
 	}
-	// leave both ends closed and clean (uncontrolled)
+	// leave the stream closed and clean (uncontrolled).  The peer's end ss is an instrumented Stream too: no
+	// notification for it may still be in flight when the next controlled run starts (the server's event loop
+	// would run instrumented code concurrently with the scheduler), so let the last one arrive, then take ss
+	// out of the server's table — later elements for this id find no stream.
+	wasOpen := atomic.LoadUint32(&s.state) != uint32(streamClosed)
 	_ = s.Close()
-	_ = ss.Close()
+	if wasOpen && atomic.LoadUint32(&ss.state) == uint32(streamOpened) {
+		for end := time.Now().Add(2 * time.Second); time.Now().Before(end) && atomic.LoadUint32(&ss.state) == uint32(streamOpened); {
+			time.Sleep(100 * time.Microsecond)
+		}
+	}
+	env.server.streamLock.Lock()
+	delete(env.server.streams, id)
+	env.server.streamLock.Unlock()
+	time.Sleep(200 * time.Microsecond)
 	return c
 }
 
